@@ -1,6 +1,7 @@
 package props
 
 import (
+	"bytes"
 	"context"
 	"fmt"
 
@@ -16,58 +17,147 @@ func c01(tier string) []*explore.Scenario {
 	for _, ser := range []bool{false, true} {
 		for _, cp := range []int{0, 64} {
 			po := env.PipeOpts{Cap: cp, Serialize: ser}
-			out = append(out, c01Direct(2, po, 2))
-			out = append(out, c01Direct(3, po, 1))
+			if tier == "thorough" {
+				out = append(out, c01Direct(2, po, 3, false), c01Direct(3, po, 2, false), c01Direct(4, po, 1, false))
+			} else {
+				out = append(out, c01Direct(2, po, 2, false), c01Direct(3, po, 1, false))
+			}
 		}
 	}
+	po := env.PipeOpts{Cap: 64, Serialize: true}
+	// start-up concurrent with the calls; many callers with one deviation
+	out = append(out, c01Direct(2, po, 1, true))
+	out = append(out, c01Direct(8, po, 1, false))
+	out = append(out, c01Direct(16, po, 0, false))
+	if tier == "thorough" {
+		out = append(out, c01Direct(64, po, 0, false), c01Direct(16, po, 1, false), c01Direct(3, po, 2, true))
+	}
+	out = append(out, c01Payloads(po), c01Payloads(env.PipeOpts{Cap: 0}))
+	out = append(out, c01Seq(po))
 	return out
 }
 
-func c01Direct(k int, po env.PipeOpts, bound int) *explore.Scenario {
+// c01Payloads: the payload alphabet under the default schedule (payload
+// content does not interact with scheduling), 3 at a time.
+func c01Payloads(po env.PipeOpts) *explore.Scenario {
+	sizes := []int{0, 1, 2, 127, 128, 16383, 16384, 65535, 65536}
 	return &explore.Scenario{
-		Name:   fmt.Sprintf("C01/direct/k=%d/cap=%d/ser=%v", k, po.Cap, po.Serialize),
-		Family: "C01/direct",
-		Bound:  bound,
+		Name:   fmt.Sprintf("C01/payloads/cap=%d/ser=%v", po.Cap, po.Serialize),
+		Family: "C01/payloads", Prop: "C01", Bound: 0,
 		Run: func() {
-			calls := map[string]int{}
-			impl := &env.Svc{UnaryFn: func(ctx context.Context, in *env.Msg) (*env.Msg, error) {
-				calls[string(in.Value)]++
-				return env.S("R:" + string(in.Value)), nil
-			}}
-			d := env.NewDirect(impl, env.DirectOpts{Pipe: po})
+			w := env.NewWorld()
+			d := env.NewDirect(w, env.DirectOpts{Pipe: po})
 			vsched.Settle()
 			vsched.Explore(true)
-			type res struct {
-				done  bool
-				err   error
-				reply string
-			}
-			rs := make([]res, k)
-			for i := 0; i < k; i++ {
-				i := i
-				vsched.GoNamed(fmt.Sprintf("caller%d", i), func() {
+			n := 0
+			for _, sz := range sizes {
+				for pat := 0; pat < 3; pat++ {
+					data := make([]byte, sz)
+					for i := range data {
+						switch pat {
+						case 1:
+							data[i] = 0xFF
+						case 2:
+							data[i] = byte(i*31 + 7)
+						}
+					}
+					tag := fmt.Sprintf("p%d", n)
+					n++
+					req := append([]byte(tag+"|"), data...)
+					w.Rec(tag, "Unary")
+					w.Unaries[tag] = func(r *env.Rec, ctx context.Context, in string) (string, error) {
+						return "R:" + in, nil
+					}
 					out := new(env.Msg)
-					err := d.CC.Invoke(context.Background(), env.MUnary, env.S(fmt.Sprintf("q%d", i)), out)
-					rs[i] = res{true, err, string(out.Value)}
-				})
+					err := d.CC.Invoke(context.Background(), env.MUnary, env.B(req), out)
+					if err != nil {
+						vsched.Fail("C01/payloads|error", "size %d pattern %d: %v", sz, pat, err)
+					} else if !bytes.Equal(out.Value, append([]byte("R:"), req...)) {
+						vsched.Fail("C01/payloads|reply", "size %d pattern %d: reply differs (len %d)", sz, pat, len(out.Value))
+					}
+					r := w.Recs[tag]
+					if r.HStarts != 1 || len(r.HReq) != 1 || r.HReq[0] != string(req) {
+						vsched.Fail("C01/payloads|request", "size %d pattern %d: handler saw %d invocations / a different request", sz, pat, r.HStarts)
+					}
+				}
+			}
+			vsched.Obs("payload cases=%d", n)
+			finishDirect(d, w, true)
+		},
+	}
+}
+
+// c01Seq: a second call explored from a non-initial state (after a first call
+// completed) must behave exactly like the first.
+func c01Seq(po env.PipeOpts) *explore.Scenario {
+	return &explore.Scenario{
+		Name:   fmt.Sprintf("C01/after-previous/cap=%d", po.Cap),
+		Family: "C01/direct", Prop: "C01", Bound: 2,
+		Run: func() {
+			w := env.NewWorld()
+			d := env.NewDirect(w, env.DirectOpts{Pipe: po})
+			r0 := w.Rec("c0", "Unary")
+			w.CallUnary(d.CC, context.Background(), r0, "x")
+			vsched.Settle()
+			vsched.Explore(true)
+			r1, r2 := w.Rec("c1", "Unary"), w.Rec("c2", "Unary")
+			vsched.GoNamed("caller1", func() { w.CallUnary(d.CC, context.Background(), r1, "x") })
+			vsched.GoNamed("caller2", func() { w.CallUnary(d.CC, context.Background(), r2, "y") })
+			vsched.Quiesce()
+			checkUnary(r0, "x", "C01/direct")
+			checkUnary(r1, "x", "C01/direct")
+			checkUnary(r2, "y", "C01/direct")
+			finishDirect(d, w, true)
+		},
+	}
+}
+
+func checkUnary(r *env.Rec, data, fam string) {
+	vsched.Obs("%s done=%v err=%s reply=%q handler=%d", r.Tag, r.CDone, env.ErrStr(r.CErr), r.CReply, r.HStarts)
+	want := "R:" + r.Tag + "|" + data
+	if !r.CDone {
+		vsched.Fail(fam+"|hang", "call %s never returned", r.Tag)
+		return
+	}
+	if r.CErr != nil {
+		vsched.Fail(fam+"|error", "call %s failed: %v", r.Tag, r.CErr)
+	} else if r.CReply != want {
+		vsched.Fail(fam+"|reply", "call %s got reply %q, want %q", r.Tag, r.CReply, want)
+	}
+	if r.HStarts != 1 {
+		vsched.Fail(fam+"|handler-count", "handler ran %d times for call %s", r.HStarts, r.Tag)
+	} else if r.HReq[0] != r.Tag+"|"+data {
+		vsched.Fail(fam+"|request", "handler of %s saw request %q", r.Tag, r.HReq[0])
+	}
+}
+
+func c01Direct(k int, po env.PipeOpts, bound int, duringStartup bool) *explore.Scenario {
+	return &explore.Scenario{
+		Name:   fmt.Sprintf("C01/direct/k=%d/cap=%d/ser=%v/startup=%v", k, po.Cap, po.Serialize, duringStartup),
+		Family: "C01/direct",
+		Prop:   "C01",
+		Bound:  bound,
+		Run: func() {
+			w := env.NewWorld()
+			if duringStartup {
+				vsched.Explore(true)
+			}
+			d := env.NewDirect(w, env.DirectOpts{Pipe: po})
+			if !duringStartup {
+				vsched.Settle()
+				vsched.Explore(true)
+			}
+			var rs []*env.Rec
+			for i := 0; i < k; i++ {
+				r := w.Rec(fmt.Sprintf("c%d", i), "Unary")
+				rs = append(rs, r)
+				vsched.GoNamed("caller-"+r.Tag, func() { w.CallUnary(d.CC, context.Background(), r, "x") })
 			}
 			vsched.Quiesce()
-			for i := range rs {
-				q := fmt.Sprintf("q%d", i)
-				vsched.Obs("call%d done=%v err=%v reply=%q handler=%d", i, rs[i].done, rs[i].err, rs[i].reply, calls[q])
-				if !rs[i].done {
-					vsched.Fail("C01/direct|hang", "call %d never returned", i)
-					continue
-				}
-				if rs[i].err != nil {
-					vsched.Fail("C01/direct|error", "call %d failed: %v", i, rs[i].err)
-				} else if rs[i].reply != "R:"+q {
-					vsched.Fail("C01/direct|reply", "call %d got reply %q, want %q", i, rs[i].reply, "R:"+q)
-				}
-				if calls[q] != 1 {
-					vsched.Fail("C01/direct|handler-count", "handler ran %d times for request %q", calls[q], q)
-				}
+			for _, r := range rs {
+				checkUnary(r, "x", "C01/direct")
 			}
+			finishDirect(d, w, true)
 		},
 	}
 }
